@@ -148,7 +148,7 @@ def evaluate_z3_string_value(expr: z3.ExprRef, _) -> Maybe[Z3EvalResult]:
     if not z3.is_string_value(expr):
         return Nothing
     expr: z3.StringVal
-    return Some(((), expr.as_string().replace(r"\u{}", "\x00")))
+    return Some(((), smt_string_val_to_string(expr)))
 
 
 def evaluate_z3_int_value(expr: z3.ExprRef, _) -> Maybe[Z3EvalResult]:
@@ -878,7 +878,13 @@ def smt_string_val_to_string(smt_val: z3.StringVal) -> str:
     :return: The Python string representation of `smt_val`.
     """
 
-    return smt_val.as_string().replace(r"\u{}", "\x00")
+    # `as_string()` decodes escapes up to `\u{ff}` only; larger code points (and the
+    # null byte, as `\u{}`) are left in their escaped form.
+    return re.sub(
+        r"\\u\{([0-9a-fA-F]{0,5})\}",
+        lambda m: chr(int(m.group(1) or "0", 16)),
+        smt_val.as_string(),
+    )
 
 
 def parent_relationships_in_z3_expr(
